@@ -5,7 +5,7 @@ import TopSearch.Model.Batch
 namespace TopSearch.Gen.Graph
 def cfg : TopSearch.Graph.Cfg :=
   { rmCmp := .gt, intervals := 510, startOffset := 10,
-    iters := 510, useArgmin := true,
+    iters := 530, useArgmin := true,
     roughSmall := [0, 1], roughCmp := .lt }
 def bcfg : TopSearch.Batch.BCfg :=
   { monoCmp := .le, sentCmp := .gt, sentThr := 1000000000,
